@@ -233,6 +233,38 @@ fn cell(entry: usize, sig: i32, ctx: usize, e: &mut Emit) {
     e.line("done");
 }
 
+/// A refused registration releases the would-be action - also when what the action captured uses
+/// the library while it is being released (a guard that unregisters a companion hook; the last
+/// handle of an iterator instance that is already gone).
+fn reentrant_release_cell(variant: usize, e: &mut Emit) {
+    struct Guard(Option<reg::SigId>);
+    impl Drop for Guard {
+        fn drop(&mut self) {
+            let r = self.0.take().map_or(false, reg::unregister);
+            RELEASED.store(1 + r as usize, Ordering::SeqCst);
+        }
+    }
+    static RELEASED: AtomicUsize = AtomicUsize::new(0);
+    let companion = unsafe { reg::register(libc::SIGUSR1, || ()) }.unwrap();
+    let g = Guard(Some(companion));
+    let handle = {
+        let s = SignalsInfo::<SignalOnly>::new(&[libc::SIGUSR2]).unwrap();
+        s.handle()
+    };
+    let outcome = match variant {
+        0 => unsafe { reg::register_unchecked(libc::SIGKILL, move |_| { let _ = &g; }) }.map(|_| ()),
+        1 => unsafe { reg::register(100, move || { let _ = &g; }) }.map(|_| ()),
+        2 => unsafe { reg::register_signal_unchecked(libc::SIGSTOP, move || { let _ = &handle; }) }.map(|_| ()),
+        _ => unsafe { reg::register_sigaction(0, move |_| { let _ = &handle; }) }.map(|_| ()),
+    };
+    e.line(&format!("outcome={}", if outcome.is_ok() { "ok" } else { "err" }));
+    e.line(&format!("guard_released={}", RELEASED.load(Ordering::SeqCst)));
+    // the library is still usable
+    let again = unsafe { reg::register(libc::SIGWINCH, || ()) };
+    e.line(&format!("next={}", if again.is_ok() { "ok" } else { "err" }));
+    e.line("done");
+}
+
 /// The kernel's (and libc's) verdict on installing a handler for each number, obtained independently.
 fn os_verdicts(sigs: &[i32]) -> Vec<bool> {
     let sigs2 = sigs.to_vec();
@@ -295,7 +327,28 @@ pub fn run(tier: Tier) -> BResult {
         let (en, s, c, _) = cells_ref[i];
         cell(en, s, c, e);
     });
+    let rprobes = run_cells(4, 4, Duration::from_secs(10), move |i, e| reentrant_release_cell(i, e));
     let mut violations = Vec::new();
+    for (i, p) in rprobes.iter().enumerate() {
+        let names = ["register_unchecked(SIGKILL), action owns a guard that unregisters a companion hook", "register(100), action owns such a guard", "register_signal_unchecked(SIGSTOP), action owns the last handle of a dropped iterator instance", "register_sigaction(0), action owns such a handle"];
+        let case = json!({"entry": names[i], "context": "what the refused action captured uses the library when it is released"});
+        let bad = if p.fate == Fate::TimedOut {
+            Some("the refused call never returned (the action was released while the registry's writer lock was held, and its release needs that lock)".to_string())
+        } else if p.fate != Fate::Exited(0) || !p.has("done") {
+            Some(format!("the process {} (last: {:?})", p.fate.describe(), p.lines.last()))
+        } else if p.find("outcome=") != Some("err") {
+            Some("the OS-refused registration did not return an error".to_string())
+        } else if i < 2 && p.find("guard_released=") != Some("2") {
+            Some(format!("what the action captured was not released properly (guard state {})", p.find("guard_released=").unwrap_or("?")))
+        } else if p.find("next=") != Some("ok") {
+            Some("the library is not usable afterwards".to_string())
+        } else {
+            None
+        };
+        if let Some(m) = bad {
+            violations.push(BViolation { message: format!("C14: {}: {}", names[i], m), case });
+        }
+    }
     let mut classes: std::collections::BTreeMap<String, u64> = Default::default();
     let mut samples = Vec::new();
     let mut distinct = std::collections::HashSet::new();
@@ -346,7 +399,7 @@ pub fn run(tier: Tier) -> BResult {
         violations,
         exhaustive: true,
         caps: vec![],
-        rule: "complete grid entry point (19: the three iterator constructors also with an accepted signal listed before the number under test - its action, slots and pipe must be gone after the refusal) x signal number ([-2,130] + i32::MIN/MAX) x context {fresh, after two other registrations, after an unchecked registration+removal of the same number; Handle::add_signal also on a closed instance}; expected class per cell from a rule (forbidden+checked => catchable panic; OS verdict obtained by an independent sibling calling sigaction => Err; iterator front-ends panic for negative / >= 128; register_conditional_default Err for numbers without a name; else Ok); distinct = distinct (entry, outcome class, child fate, expected) tuples".into(),
+        rule: "complete grid entry point (19: the three iterator constructors also with an accepted signal listed before the number under test - its action, slots and pipe must be gone after the refusal) x signal number ([-2,130] + i32::MIN/MAX) x context {fresh, after two other registrations, after an unchecked registration+removal of the same number; Handle::add_signal also on a closed instance}; expected class per cell from a rule (forbidden+checked => catchable panic; OS verdict obtained by an independent sibling calling sigaction => Err; iterator front-ends panic for negative / >= 128; register_conditional_default Err for numbers without a name; else Ok); plus 4 refused registrations whose action captured state that re-enters the library when released; distinct = distinct (entry, outcome class, child fate, expected) tuples".into(),
         assumptions: vec!["kernel/libc verdict on a signal number is taken from an independent sigaction call in a sibling process".into(), "x86-64 Linux".into()],
     }
 }
